@@ -668,6 +668,11 @@ func (ts *tstate) call(in ssa.CallInstruction, res ssa.Value, final bool) {
 		if args, desc := ta.spec.Sink(ta, in); len(args) > 0 {
 			for _, i := range args {
 				var d Deps
+				if i < 0 {
+					// a sink that fails by itself (a switched-off safety setting)
+					ts.require(Deps{Src{Kind: srcTaint, Name: "the encoder's output"}: true}, &tWitness{Sink: desc}, "sink "+desc, in.Pos())
+					continue
+				}
 				if cm.IsInvoke() {
 					d = argDeps(i - 1)
 				} else {
@@ -883,7 +888,9 @@ func htmlScope(fn *ssa.Function) bool {
 			}
 			if pos.IsValid() {
 				file := fn.Prog.Fset.Position(pos).Filename
-				return strings.HasSuffix(file, "html_formatter.go")
+				// (the HTML formatter hands everything that is not a component to
+				// the pretty JSON formatter, between <pre> and </pre>)
+				return strings.HasSuffix(file, "html_formatter.go") || strings.HasSuffix(file, "pretty_json_formatter.go")
 			}
 		}
 		return false
@@ -913,6 +920,15 @@ func htmlSpec() *PredicateSpec {
 			}
 			if f, ok := cm.Value.(*ssa.Function); ok {
 				switch f.String() {
+				case "(*encoding/json.Encoder).SetEscapeHTML":
+					// a JSON encoder that writes into a page must keep escaping
+					// <, > and &: anything but the constant true is a failed sink
+					if len(cm.Args) == 2 {
+						if c, ok := cm.Args[1].(*ssa.Const); ok && c.Value != nil && constant.BoolVal(c.Value) {
+							return nil, ""
+						}
+					}
+					return []int{-1}, "json.Encoder.SetEscapeHTML(on): HTML escaping of the JSON text must stay on"
 				case "(*os.File).Write", "(*os.File).WriteString", "(*bufio.Writer).WriteString", "(*bufio.Writer).Write", "io.WriteString":
 					return []int{1}, f.String()
 				case "fmt.Fprintf", "fmt.Fprint", "fmt.Fprintln":
@@ -929,6 +945,13 @@ func htmlSpec() *PredicateSpec {
 			switch callee.String() {
 			case "html.EscapeString", "html/template.HTMLEscapeString", "net/url.QueryEscape", "net/url.PathEscape":
 				ta.assumptions[callee.String()+" returns html_safe text"] = true
+				return true
+			case "encoding/json.Marshal", "encoding/json.MarshalIndent", "(*encoding/json.Encoder).Encode":
+				// encoding/json escapes <, > and & inside strings unless told not to
+				// (SetEscapeHTML(false) is a failed sink above). The quotes of the
+				// JSON strings stay: the text is only ever written as element
+				// content (<pre>), never into an attribute.
+				ta.assumptions[callee.String()+" escapes <, > and & (its default; safe as element content, written inside <pre> only)"] = true
 				return true
 			}
 			if sanitizingReplacerCall(ta, callee, in, []string{"&", "<", ">", `"`}) {
